@@ -34,8 +34,12 @@ func escapeTemplate(tmpl *Template, node parse.Node, name string) error {
 		// Prevent execution of unsafe templates.
 		if t := tmpl.set[name]; t != nil {
 			t.escapeErr = err
-			t.text.Tree = nil
-			t.Tree = nil
+			if c.err != nil {
+				t.text.Tree = nil
+				t.Tree = nil
+			}
+			// Otherwise only the end context is unsuitable for a top-level
+			// template; the tree may be in use as a callee of other templates.
 		}
 		return err
 	}
@@ -536,7 +540,12 @@ func (e *escaper) escapeTree(c context, node parse.Node, name string, line int) 
 		}
 		e.ns.pristine[name] = t.Tree.Copy()
 	}
-	return e.computeOutCtx(c, t), dname
+	out := e.computeOutCtx(c, t)
+	if out.state != stateError {
+		// escapeTemplateBody only recorded an assumption; record the computed context.
+		e.output[dname] = out
+	}
+	return out, dname
 }
 
 // computeOutCtx takes a template and its start context and computes the output
